@@ -1643,3 +1643,100 @@ Proof.
       apply in_map_iff in Hel. destruct Hel as (r & <- & _). cbn [lentry_of l_val]. apply e_value_nofuel. }
   destruct (as_dict (S (length es)) es root_id); cbn [bind]; congruence.
 Qed.
+
+(* ====================================================================== all key tables, competing ones included, to the tree *)
+Lemma active_tables_eq f st : active_tables f st = active_of f (s_fobjs st) (s_kts st).
+Proof. reflexivity. Qed.
+
+Lemma registry_inv ts : reg_inv (registry ts) ts.
+Proof.
+  assert (Hgen : forall ts reg seen, reg_inv reg seen ->
+            reg_inv (fold_left (fun reg t => register t reg) ts reg) (seen ++ ts)).
+  { induction ts0 as [|t ts0 IH]; intros reg seen Hinv; [now rewrite app_nil_r|].
+    cbn [fold_left]. replace (seen ++ t :: ts0) with ((seen ++ [t]) ++ ts0) by (rewrite <- app_assoc; reflexivity).
+    apply IH, register_inv, Hinv. }
+  assert (H0 : reg_inv [] []) by (split; [constructor|intros i x []]).
+  exact (Hgen ts [] [] H0).
+Qed.
+
+Lemma assoc_z_in {A} (l : list (Z * A)) k v : assoc_z l k = Some v -> In (k, v) l.
+Proof.
+  induction l as [|[k' v'] l IH]; cbn [assoc_z]; [discriminate|].
+  destruct (Z.eqb_spec k' k) as [->|]; [intros [= ->]; now left|intros H; right; auto].
+Qed.
+
+Lemma find_idx Ts T : NoDup (map st_idx Ts) -> In T Ts -> find (fun T' => st_idx T' =? st_idx T) Ts = Some T.
+Proof.
+  induction Ts as [|a Ts IH]; intros Hnd Hin; [contradiction|]. cbn [map] in Hnd. inversion Hnd as [|? ? Hn Hd]; subst.
+  cbn [find]. destruct Hin as [->|Hin]; [now rewrite Z.eqb_refl|].
+  destruct (Z.eqb_spec (st_idx a) (st_idx T)) as [He|]; [|auto].
+  exfalso. apply Hn. rewrite He. now apply in_map.
+Qed.
+
+Lemma live_entries_cons il ts :
+  live_entries (il :: ts) = filter (fun e => negb (l_free e)) (snd il) ++ live_entries ts.
+Proof. unfold live_entries. cbn [map concat]. apply filter_app. Qed.
+
+Lemma live_entries_app a b : live_entries (a ++ b) = live_entries a ++ live_entries b.
+Proof. unfold live_entries. now rewrite map_app, concat_app, filter_app. Qed.
+
+Theorem registry_roundtrip f fo (All : list ktable) (Ts : list stable) F :
+  Forall (stable_ok f fo) Ts -> NoDup (map st_idx Ts) ->
+  (forall T, In T Ts -> In (kt_of T) All) ->
+  (forall kt, In kt All -> exists T, In T Ts /\ st_idx T = kt_index kt /\ (kt = kt_of T \/ kt_seq kt < st_seq T)) ->
+  Permutation (flat_map (fun T => live_of (st_slots T)) Ts) (flat_forest root_id F) ->
+  NoDup (root_id :: flat_map aids F) -> forest_keys_unique F ->
+  exists t, link (active_of f fo (registry All)) = Ok t /\ tree_equiv t (Node (map erase F)).
+Proof.
+  intros Hok Hnd Hact Hall Hperm Hids Hkeys.
+  destruct (registry_inv All) as [Hkeysnd Hget].
+  (* the head of every registry list is the stored active table of that index *)
+  assert (Hhead : forall idx l, In (idx, l) (registry All) ->
+            exists T r, In T Ts /\ st_idx T = idx /\ l = kt_of T :: r).
+  { intros idx l Hin. destruct (active_key_table All idx l Hin) as (h & r & -> & Hh & Hi & Hmax).
+    destruct (Hall h Hh) as (T & HT & HTi & Hcase). exists T, r. split; [exact HT|]. split; [congruence|].
+    destruct Hcase as [->|Hlt]; [reflexivity|]. exfalso.
+    specialize (Hmax (kt_of T) (Hact T HT) ltac:(cbn [kt_of kt_index]; congruence)). cbn [kt_of kt_seq] in Hmax. lia. }
+  set (pick := fun il : Z * list ktable =>
+                 match find (fun T => st_idx T =? fst il) Ts with Some T => [T] | None => [] end).
+  (* Claim A *)
+  assert (HA : forall reg, incl reg (registry All) ->
+            live_entries (active_of f fo reg) = flat_map (fun T => live_of (st_slots T)) (flat_map pick reg) /\
+            map st_idx (flat_map pick reg) = map fst reg).
+  { induction reg as [|[idx l] reg IH]; intros Hinc; [split; reflexivity|].
+    destruct (IH (fun x Hx => Hinc x (or_intror Hx))) as [IH1 IH2].
+    destruct (Hhead idx l (Hinc _ (or_introl eq_refl))) as (T & r & HT & <- & ->).
+    cbn [flat_map active_of]. fold (active_of f fo reg). cbn [snd fst].
+    unfold pick at 1. cbn [fst]. unfold pick at 2. cbn [fst]. rewrite (find_idx Ts T Hnd HT). fold pick.
+    cbn [app]. rewrite live_entries_cons, IH1. split.
+    - cbn [flat_map snd]. f_equal. cbn [kt_of kt_entries].
+      rewrite Forall_forall in Hok. destruct (Hok T HT) as (_ & _ & _ & _ & _ & Hsl). now apply table_decodes.
+    - cbn [map fst]. now rewrite IH2. }
+  destruct (HA (registry All) (incl_refl _)) as [HA1 HA2].
+  (* Claim B *)
+  assert (HB : Permutation (flat_map pick (registry All)) Ts).
+  { apply NoDup_Permutation.
+    - apply (NoDup_map_inv st_idx). rewrite HA2. exact Hkeysnd.
+    - apply (NoDup_map_inv st_idx). exact Hnd.
+    - intros T. split.
+      + intros Hin. apply in_flat_map in Hin. destruct Hin as (il & _ & Hp). unfold pick in Hp.
+        destruct (find _ Ts) as [T'|] eqn:Hf; [|contradiction]. destruct Hp as [<-|[]]. apply find_some in Hf. tauto.
+      + intros HT. specialize (Hget (st_idx T)).
+        destruct (assoc_z (registry All) (st_idx T)) as [l|] eqn:Ha.
+        * apply in_flat_map. exists (st_idx T, l). split; [now apply assoc_z_in|].
+          unfold pick. cbn [fst]. rewrite (find_idx Ts T Hnd HT). now left.
+        * exfalso. apply (Hget (kt_of T) (Hact T HT)). reflexivity. }
+  apply link_roundtrip; try assumption.
+  - split.
+    + clear - Hkeysnd. induction (registry All) as [|[i l] reg IH]; [constructor|].
+      cbn [map fst] in Hkeysnd. inversion Hkeysnd as [|? ? Hn Hd]; subst.
+      cbn [active_of flat_map snd fst]. fold (active_of f fo reg). destruct l as [|t l]; [auto|].
+      cbn [app map fst]. constructor; [|auto]. intros Hin. apply Hn.
+      clear - Hin. induction reg as [|[j m] reg IHr]; [contradiction|]. cbn [active_of flat_map snd fst] in Hin.
+      fold (active_of f fo reg) in Hin. destruct m; cbn [app map fst In] in *; [right; auto|].
+      destruct Hin as [<-|Hin]; [now left|right; auto].
+    + intros idx l e Hin Hel. unfold active_of in Hin. apply in_flat_map in Hin. destruct Hin as ([j m] & _ & Hjm).
+      cbn [snd fst] in Hjm. destruct m as [|t m]; [contradiction|]. destruct Hjm as [[= <- <-]|[]].
+      apply in_map_iff in Hel. destruct Hel as (r & <- & _). reflexivity.
+  - rewrite HA1. eapply perm_trans; [|exact Hperm]. apply Permutation_flat_map, HB.
+Qed.
